@@ -155,7 +155,8 @@ example : (sliceHeader sliceF sliceS.len 2 8).region = some (2, 8) ∧
 /-- **Closure of `Writable` under `gts.Slice`, proved part.**  For every record of the domain
 (`Writable reg (ofSeq F s) s.bytes`) and EVERY window the real code accepts (`sliceWindowOk`: forward
 windows `0 ≤ a ≤ b ≤ L` — negative indices counted from the end — and wrap-around windows), the record
-`gts.Slice` returns is in the domain again.  Field by field: the LOCUS length is the new residue
+`gts.Slice` returns is in the domain again (its residues are the sliced residues, its LOCUS length their
+count — third conjunct).  Field by field: the LOCUS length is the new residue
 count (a count below the old one: `0 ≤ · < 10^9`), the topology linear; the ACCESSION line with the
 new ` REGION: a+1..b` suffix is one line (`itoaB` prints digits); every kept REFERENCE has a number in
 `1..m`, a one-line info — the old one, or `(bases x to y; …)`, which starts with `(` — and its
@@ -173,8 +174,10 @@ theorem writable_slice_partial (reg : Registry) (F : Fields) (s : Seq) (a b : In
     (renumberGuard : renumberOk F.references = true)
     (hne : 0 < (s.slice a b).bytes.length ∨ F.contigAcc.isEmpty = true) :
     Writable reg (sliceRecord F s a b) (s.slice a b).bytes = true ∧
-    (sliceRecord F s a b).origin = .residues (s.slice a b).bytes :=
-  ⟨writable_sliceRecord reg F s a b hw renumberGuard hne, rfl⟩
+    (sliceRecord F s a b).origin = .residues (s.slice a b).bytes ∧
+    locusLength (sliceRecord F s a b).fields (s.slice a b).bytes =
+      (if (s.slice a b).bytes.isEmpty then contigLen F else ((s.slice a b).bytes.length : Int)) :=
+  ⟨writable_sliceRecord reg F s a b hw renumberGuard hne, rfl, rfl⟩
 
 /-- non-vacuity: the witness meets every hypothesis for a forward, a wrap-around and an EMPTY window
 (no CONTIG) -/
@@ -244,7 +247,7 @@ theorem read_write_sliced_exact (reg : Registry) (F : Fields) (s : Seq) (a b : I
       (slicedHeaderRead F s.len a b).accession = F.accession ++ regionSuffix (sliceWindow s.len a b) ∧
       (slicedHeaderRead F s.len a b).region = none ∧
       (slicedHeaderRead F s.len a b).references = (sliceHeader F s.len a b).references := by
-  obtain ⟨hw', ho⟩ := writable_slice_partial reg F s a b hw hwin renumberGuard hne
+  obtain ⟨hw', ho, _⟩ := writable_slice_partial reg F s a b hw hwin renumberGuard hne
   obtain ⟨t, h1, _, h2⟩ := GenBank.read_write reg (sliceRecord F s a b) (s.slice a b).bytes ho hw'
     (fun x hx => locRT_of_canon x.loc (List.all_eq_true.mp hcanon x hx)) rest'
   rw [readBack_sliceRecord] at h2
@@ -304,7 +307,7 @@ theorem write_read_write_sliced (reg : Registry) (F : Fields) (s : Seq) (a b : I
       genbankParser reg ⟨t ++ rest', []⟩ = (.ok (r', reg'), ⟨rest', []⟩) ∧
       r'.fields = slicedHeaderRead F s.len a b ∧
       write reg' r' = .ok t := by
-  obtain ⟨hw', ho⟩ := writable_slice_partial reg F s a b hw hwin renumberGuard hne
+  obtain ⟨hw', ho, _⟩ := writable_slice_partial reg F s a b hw hwin renumberGuard hne
   obtain ⟨t, h1, _, h2⟩ := GenBank.read_write reg (sliceRecord F s a b) (s.slice a b).bytes ho hw'
     (fun x hx => locRT_of_canon x.loc (List.all_eq_true.mp hcanon x hx)) rest'
   refine ⟨t, _, _, h1, h2, rfl, ?_⟩
